@@ -228,13 +228,16 @@ impl Scenario for C09 {
       7 => ROp::BufferTime,
       _ => ROp::BufferCountTime(rng.range(1, 3)),
     };
-    let w = *rng.pick(&[2u32, 5, 2, 5, 1000, 1003]);
+    let timed_op = matches!(op, ROp::Debounce | ROp::ThrottleLeading | ROp::ThrottleTailing | ROp::ThrottleAll);
+    // a zero-length window for debounce / throttle (a periodic sampler or buffer
+    // timer of period zero would never let the executor go idle)
+    let w = if timed_op && rng.chance(1, 8) { 0 } else { *rng.pick(&[2u32, 5, 2, 5, 1000, 1003]) };
     let deep = deepen(rng, tier);
     let n = rng.range(1, 10 * deep);
     let mut steps = Vec::new();
     for i in 0..n {
       // gaps shorter than, equal to and longer than the window
-      let gap = *rng.pick(&[0, 1, w - 1, w, w, w + 1, 2 * w, 2 * w + 1]);
+      let gap = *rng.pick(&[0, 1, w.saturating_sub(1), w, w, w + 1, 2 * w, 2 * w + 1]);
       let last = i + 1 == n;
       let ev = if last {
         match rng.below(4) {
@@ -252,7 +255,8 @@ impl Scenario for C09 {
 
   fn run(&self, case: &Value) -> Result<Outcome, String> {
     let case: Case = serde_json::from_value(case.clone()).map_err(|e| e.to_string())?;
-    if case.w == 0 || case.w > 5000 || case.steps.len() > 20 || matches!(case.op, ROp::BufferCountTime(0)) {
+    let timed_op = matches!(case.op, ROp::Debounce | ROp::ThrottleLeading | ROp::ThrottleTailing | ROp::ThrottleAll);
+    if (case.w == 0 && !timed_op) || case.w > 5000 || case.steps.len() > 20 || matches!(case.op, ROp::BufferCountTime(0)) {
       return Err("bad shape".into());
     }
     let wd = World::new();
